@@ -150,6 +150,16 @@ func (x *Exec) execInstr(p *Path, in ssa.Instruction, work *[]*Path) bool {
 		return x.execSlice(p, v)
 	case *ssa.Lookup:
 		return x.execLookup(p, v)
+	case *ssa.Index:
+		a := x.val(p, v.X)
+		k := x.val(p, v.Index)
+		if a.K == KTerm && a.S == SStr {
+			x.guard(p, fmt.Sprintf("(and (<= 0 %s) (< %s (slen %s)))", k.T, k.T, a.T), "string-index", v)
+			x.bind(p, v, term(fmt.Sprintf("(at %s %s)", a.T, k.T), SInt))
+			return true
+		}
+		x.errorf("%s: index of %s", x.cur.ct.Func, a.String())
+		return false
 	case *ssa.MapUpdate:
 		return x.execMapUpdate(p, v)
 	case *ssa.MakeClosure:
